@@ -38,3 +38,23 @@ Example C07_example_toolong :
   snd (scan (list_ascii_of_string "{}" ++ [nl] ++ repeat "x"%char 70000 ++ [nl] ++ list_ascii_of_string "{}") REof) = STooLong /\
   fst (scan (list_ascii_of_string "{}" ++ [nl] ++ repeat "x"%char 70000 ++ [nl] ++ list_ascii_of_string "{}") REof) = [list_ascii_of_string "{}"].
 Proof. vm_compute. auto. Qed.
+
+(* ---------- the emitted text is one JSON object ---------- *)
+From Proofs Require Import Utf8Facts StrCodec Codec ParseWf TextLevel.
+
+(* whatever the input line holds: if a line is emitted, it is a complete JSON object on one physical
+   line - the parser reads it back (any tables, any value flags, encryption on or off; premises: the
+   configured texts and the ciphertext encoding are valid UTF-8) *)
+Theorem C07_emitted_is_json : forall tb cs c enc l o,
+  eager c = nil ->
+  (valid_string (c_isodate cs) /\ valid_string (c_oid cs) /\ valid_string (c_uuid cs) /\ valid_string (c_email cs) /\ valid_string (repl c)) ->
+  (forall f s ct, enc = Some f -> f s = Some ct -> valid_string ct) ->
+  redact_line tb cs c enc l = Out o ->
+  Forall clean o /\ exists m, parse_line o = Some (JObj m).
+Proof.
+  intros tb cs c enc l o He Hc Henc H. split; [eapply C07_one_physical_line; eauto|].
+  destruct (emitted_parses_back tb cs c enc He Hc Henc (fun s => hash_name_valid (repl c) s (proj2 (proj2 (proj2 (proj2 Hc))))) l o H) as (t & Ep & Eo & _).
+  unfold parse_line in Ep. destruct (parse_value _ l) as [[v r]|]; [|discriminate]. destruct v; try discriminate. injection Ep as <-.
+  rewrite Eo. unfold redact_tree. eexists. reflexivity.
+Qed.
+Print Assumptions C07_emitted_is_json.
